@@ -37,7 +37,8 @@ PATTERN_LINTERS = {"improper-logging", "method-property", "stateless-class", "pi
 HEADER_BOUND = {"lazy-ignores", "file-header"}
 
 
-HEADING_ACCEPTABLE = re.compile(r"^Suppression Declaration Format$|\(No Violations?\)|^Example \d+: Acceptable", re.I)
+HEADING_ACCEPTABLE = re.compile(r"\(No Violations?\)|^Example \d+: Acceptable", re.I)   # the block's own heading
+SECTION_ACCEPTABLE = re.compile(r"^Suppression Declaration Format$", re.I)                  # any enclosing heading
 SEC_VIOLATING = re.compile(r"^(#|//)\s*(also\s+)?detected(\s+\(violations\)|\s+patterns\s*$|:)", re.I)
 SEC_ACCEPTABLE = re.compile(r"^(#|//)\s*not\s+detected\b", re.I)
 
@@ -86,7 +87,7 @@ def extract(repo: str):
                 if lang:
                     text = "\n".join(body) + "\n"
                     cls = "violating" if label and VIOLATING.match(label) else "acceptable" if label and ACCEPTABLE.match(label) else "skipped"
-                    if cls == "skipped" and heads and HEADING_ACCEPTABLE.search(heads[-1][1]):
+                    if cls == "skipped" and heads and (HEADING_ACCEPTABLE.search(heads[-1][1]) or any(SECTION_ACCEPTABLE.search(h[1]) for h in heads)):
                         cls, label = "acceptable", label or heads[-1][1]  # the section exists to show the accepted way of writing it
                     in_refactoring = any("refactoring" in h[1].lower() for h in heads)
                     if cls == "violating" and in_refactoring and label.lower().startswith("before"):
